@@ -38,6 +38,9 @@ class PropCheck:
     quick_cases = 300
     thorough_cases = 3000
     trusted_base_extra: list[str] = []
+    # implementation files (relative to the tree) whose line/branch coverage by this
+    # run's cases is measured and reported in the evidence
+    coverage_files: list[str] = []
     # how cases are generated and what makes one distinct / non-trivial (evidence text)
     rule: str = ("seeded structured generator (see DESIGN.md Appendix C) + committed corpus; a case is "
                  "non-trivial if at least one building call succeeds after the first declaration; "
@@ -195,6 +198,15 @@ def run_check(pc: PropCheck, tier: str, seed: int) -> int:
     runs = []
     acc: dict = {}
     keys = set()
+    cov = None
+    if pc.coverage_files and os.environ.get("VERIF_COVERAGE", "1") != "0":
+        try:
+            import coverage as _coverage
+
+            cov = _coverage.Coverage(branch=True, include=[str(common.REPO / f) for f in pc.coverage_files], data_file=None)
+            cov.start()
+        except Exception:  # noqa: BLE001
+            cov = None
     for case in cases:
         try:
             run, viols = pc.run_impl(case)
@@ -209,6 +221,18 @@ def run_check(pc: PropCheck, tier: str, seed: int) -> int:
             keys.add(k)
         pc.stats(case, run, acc)
     violations += pc.extra_checks(tier, rng)
+    impl_cov = {}
+    if cov is not None:
+        try:
+            cov.stop()
+            for f in pc.coverage_files:
+                fn, stmts, excl, missing, _ = cov.analysis2(str(common.REPO / f))
+                nb = cov._analyze(str(common.REPO / f)).numbers
+                impl_cov[f] = dict(statements=len(stmts), missed=len(missing),
+                                   line_pct=round(100.0 * (len(stmts) - len(missing)) / max(1, len(stmts)), 1),
+                                   branches=nb.n_branches, branches_missed=nb.n_missing_branches)
+        except Exception as e:  # noqa: BLE001
+            impl_cov = {"error": repr(e)}
 
     mismatched: list[int] = []
     corr_note = ""
@@ -319,6 +343,8 @@ def run_check(pc: PropCheck, tier: str, seed: int) -> int:
         known_findings_seen=sorted(seen_known),
         broken=broken,
         distribution=acc,
+        implementation_coverage=impl_cov,
+        implementation_coverage_note="lines/branches of the anchored implementation files executed while this run's cases ran; module-level and def/class lines executed at import time (before measurement starts) count as missed, so the figures are lower bounds",
         obligations_list=obl_names[:400],
     )
     common.write_evidence(pc.id, tier, seed, coverage, time.time() - t0, 0 if exit_code == 0 else max(1, len(new_viols)), list(pc.assumptions))
